@@ -25,6 +25,7 @@ type c05cfg struct {
 	narrow  bool // explore schedules only while the outage lasts (retry chains of both hubs)
 	simple  bool // the hubs use the in-memory SimpleMdns (synchronous answers) instead of the MdnsManager
 	early   string // "restartA" / "restartB": that hub is shut down (and replaced 2 s later) while the first connection is being set up
+	c11     bool   // C11 scenario: after the quiet period the accounting of connection ends is judged (instead of convergence)
 	c01     string // "" | "unregister" | "cancel": C01 scenario, the surviving hub withdraws the trust after the power cycle of its peer
 }
 
@@ -44,6 +45,9 @@ func (c c05cfg) name() string {
 	}
 	if c.c01 != "" {
 		n += "/then-" + c.c01
+	}
+	if c.c11 {
+		n += "/accounting"
 	}
 	return n
 }
@@ -198,6 +202,21 @@ func c05Body(c c05cfg) func() {
 			simrt.RunFor(200 * time.Millisecond)
 			simrt.Go("regA", func() { a.Hub.RegisterRemoteSKI(b.SKI) })
 			simrt.Go("regB", func() { b.Hub.RegisterRemoteSKI(a.SKI) })
+		case "cancel-register":
+			// only B has registered A: its request is pending at A; A's user first cancels it and then, while the aborted
+			// connection still lingers, registers B after all
+			b.Hub.RegisterRemoteSKI(a.SKI)
+			simrt.RunFor(3 * time.Second)
+			a.Hub.CancelPairingWithSKI(b.SKI)
+			simrt.RunFor(300 * time.Millisecond)
+			a.Hub.RegisterRemoteSKI(b.SKI)
+		case "register-during-init":
+			// A registers B at the moment B's connection has been accepted but has not said anything yet
+			b.Hub.RegisterRemoteSKI(a.SKI)
+			simrt.Go("regA-on-accept", func() {
+				simrt.Block("first-link", func() bool { return len(fakews.Links()) > 0 })
+				a.Hub.RegisterRemoteSKI(b.SKI)
+			})
 		}
 		if c.early != "" {
 			// shut the hub down as soon as the first socket between the two exists (its own dial or the one it is
@@ -238,6 +257,17 @@ func c05Body(c c05cfg) func() {
 		}
 		if c.c01 != "" {
 			c01AfterPowerCycle(w, c)
+			return
+		}
+		if c.c11 {
+			q := c.quiet
+			if q == 0 {
+				q = 90 * time.Second
+			}
+			simrt.RunFor(q)
+			c11Accounting(w.a, w.b, "power cycle "+c.name())
+			c11Accounting(w.b, w.a, "power cycle "+c.name())
+			simrt.Outcome(fmt.Sprintf("links=%d open=%d", len(fakews.Links()), openLinks()))
 			return
 		}
 		// quiet period: three full back-off cycles (one and a half in the deeper schedule explorations)
@@ -343,6 +373,9 @@ func c05Scenarios(r *hx.Run) []hx.Scenario {
 			cfgs = append(cfgs, c05cfg{swap: swap, order: "together", reg: "before", dist: []string{"outage"}, oneWay: true})
 		}
 		cfgs = append(cfgs, c05cfg{swap: swap, order: "A-first", reg: "after", oneWay: true})
+		// registration while a connection of the peer exists that is not waiting for the user
+		cfgs = append(cfgs, c05cfg{swap: swap, order: "together", reg: "cancel-register"})
+		cfgs = append(cfgs, c05cfg{swap: swap, order: "together", reg: "register-during-init"})
 		// the same with the second mDNS implementation (synchronous answers, no re-announcement events)
 		cfgs = append(cfgs, c05cfg{swap: swap, order: "together", reg: "before", simple: true})
 		cfgs = append(cfgs, c05cfg{swap: swap, order: "A-first", reg: "late", simple: true})
@@ -495,6 +528,58 @@ func c01PowerCycleScenarios(r *hx.Run) []hx.Scenario {
 				out = append(out, hx.Scenario{Name: "c01:powercycle:" + c.name(), Body: c05Body(c), Bounds: simrt.Bounds{Preempt: dd, Fault: 0, Total: dd},
 					Cfg: simrt.Config{MaxSteps: 600000, BranchAfterMark: true, DelayBounding: true, BranchOnly: []string{"http.serve", "keepThisConnection"}}})
 			}
+		}
+	}
+	return out
+}
+
+// c11Accounting judges the application's view of hub n about its peer after things have settled (C11's last clause and
+// the registry clause; the exactly-once clause needs the close monitor and is judged by the scenarios that install it).
+func c11Accounting(n, peer *hubx.Node, what string) {
+	last := n.App.Last(peer.SKI, "setup", "disconnected")
+	reg := registry(n)
+	c, has := reg[peer.SKI]
+	live := has && completed(c)
+	if last != nil {
+		if (last.Kind == "setup") != live {
+			simrt.Fail("C11|last-notification-inconsistent", "hub %s: last of {setup,disconnected} for the peer is %q but a completed connection is registered = %v (%s)", n.Name, last.Kind, live, what)
+		}
+	} else if live {
+		simrt.Fail("C11|registered-without-setup", "hub %s has a completed connection registered but never reported a setup (%s)", n.Name, what)
+	}
+	if has {
+		if sc, ok := c.(api.ShipConnectionInterface); ok {
+			if closed, _ := sc.DataHandler().IsDataConnectionClosed(); closed {
+				simrt.Fail("C11|closed-connection-still-registered", "hub %s still has a connection registered whose transport is closed (%s)", n.Name, what)
+			}
+		}
+	}
+	// a live, completed connection of the peer that this hub does not have registered: its entry was dropped with another connection's end
+	if !has {
+		for _, l := range fakews.Links() {
+			if !l.Client.IsClosed() && !l.Server.IsClosed() {
+				simrt.Fail("C11|live-connection-not-registered", "hub %s has no connection registered for its peer although a connection between the two is open (%s)", n.Name, what)
+				break
+			}
+		}
+	}
+}
+
+func c11PowerCycleScenarios(r *hx.Run) []hx.Scenario {
+	var out []hx.Scenario
+	for _, swap := range []bool{false, true} {
+		for _, d := range []string{"hardRestartA", "hardRestartB"} {
+			higherRestarts := (d == "hardRestartA") != swap
+			if !higherRestarts || (!r.Thorough() && swap) {
+				continue // the double connection whose new half wins is the one with a closing goroutine racing the registration
+			}
+			c := c05cfg{swap: swap, order: "together", reg: "before", dist: []string{d}, narrow: true, c11: true, quiet: 100 * time.Second}
+			dd := 2
+			if r.Thorough() {
+				dd = 3
+			}
+			out = append(out, hx.Scenario{Name: "c11:powercycle:" + c.name(), Body: c05Body(c), Bounds: simrt.Bounds{Preempt: dd, Fault: 0, Total: dd},
+				Cfg: simrt.Config{MaxSteps: 600000, BranchAfterMark: true, DelayBounding: true, BranchOnly: []string{"http.serve", "keepThisConnection"}}})
 		}
 	}
 	return out
